@@ -121,10 +121,10 @@ class sptenmat:
             "Incorrect specification of dimensions, the sorted concatenation of "
             "rdims and cdims must be range(len(tshape))."
         )
-        assert subs.size == 0 or np.prod(np.array(tshape)[rdims]) >= np.max(
+        assert subs.size == 0 or np.prod(np.array(tshape)[rdims]) > np.max(
             subs[:, 0]
         ), "Invalid row index."
-        assert subs.size == 0 or np.prod(np.array(tshape)[cdims]) >= np.max(
+        assert subs.size == 0 or np.prod(np.array(tshape)[cdims]) > np.max(
             subs[:, 1]
         ), "Invalid column index."
 
